@@ -154,7 +154,7 @@ def main():
             if (obj.get('kind') or '').startswith('obligation') and not a.no_lean:
                 translate(R)
                 driver_ok = lean_build(R, a.pid)
-            reps = max(1, int(os.environ.get('VERIF_THOROUGH_SEEDS', '4'))) if rtier == 'thorough' else 1
+            reps = max(1, int(os.environ.get('VERIF_THOROUGH_SEEDS', '2'))) if rtier == 'thorough' else 1
             for k in range(reps):
                 mod.run(R, rtier, rseed + 104729 * k, driver_ok)
             again = [v for v in R.violations if v[0] == want] + [b for b in R.breaks if b[0] == want]
@@ -171,7 +171,7 @@ def main():
                 leanchecker(R, a.pid)
         # thorough: the whole generator / oracle / correspondence pass is repeated on further seeds derived from the
         # given one (cases accumulate in the same verdict and evidence)
-        reps = max(1, int(os.environ.get('VERIF_THOROUGH_SEEDS', '4'))) if tier == 'thorough' else 1
+        reps = max(1, int(os.environ.get('VERIF_THOROUGH_SEEDS', '2'))) if tier == 'thorough' else 1
         seeds = [seed + 104729 * k for k in range(reps)]
         for sd in seeds:
             try:
